@@ -97,6 +97,16 @@ CHECKS = {
         "text": "decode_encode_cavs / _mac / _ticket (every well-formed value of every registered kind, nested wrappers, unknown types), encCav_injective, encCavSet_injective, encNonce_injective, reencode_fixed_point (for EVERY accepted byte string: the decoded caveats are canonical and re-decoding their encoding is the identity, with fuel+2 since the canonical form can nest two levels deeper), reencode_stable, encode_order_independent (lookup, permutation and bytes forms: the encoding factors through the final Go map, not the insertion order), unregistered_passthrough (byte for byte), unknown_type_is_kept are proved in Lean on top of the byte-level theorems dec_enc / enc_dec (Lemmas/Msgpack.lean). signed_is_cleared is the structural fact verify_returns_carried/verify_char of C01/C04 (the values returned are the values MACed). JSON half: not modelled yet (partial).",
         "note": "tie is differential (family wire): Go encoder bytes == model encoder bytes for every generated value with maps rebuilt in random insertion orders; Go decode / re-encode == model on canonical bytes and on loosened encodings (wider/signed ints, str<->bin, longer length headers, map-encoded structs with shuffled and unknown keys). Not modelled (excluded from the theorems' domain and from the generators): ext headers in front of map lengths, wire nil for []byte fields (read as empty), duplicate fields in map-encoded structs merging Go maps. JSON rendering (encoding/json) is outside the model: partial.",
     },
+    "C19": {
+        "props": "Macaroon.Props.C19",
+        "families": ["header"],
+        "pobs": "line",
+        "generated": True,
+        "technique": "Lean 4 proof (structural induction over header text: trim/cut/split lemmas, unfolding equation and idempotence of scheme stripping, base64 round trip and alphabet, refinement of Parse to a declarative entry grammar) + differential correspondence model/Go incl. a corruption stream; constants checked against regenerated Consts",
+        "design_ref": "DESIGN.md §3 C19",
+        "text": "parse_format / parse_toAuthorizationHeader / parse_decorated_toAuthorizationHeader / parse_format_labels_oauth (every non-empty list of non-empty tokens, every decoration = Unicode white space + any number of FlyV1/Bearer words in any case each followed by white space containing a U+0020, any of the three labels, OAuth entries interleaved), format_injective, parse_rejects (no separator, unknown label, bad base64, empty payload, no macaroon entry -> ErrUnrecognizedToken; every Parse failure is in that class), parse_accepts_only (converse), split_by_location, permission_and_discharge_ok_iff / _error_class, parseToks_total_classification, header_parseToks, tokeniser_agrees_with_parse, strip_idempotent are proved for all inputs; roundtrip_fails_without_hypotheses records the boundary (no token / empty token).",
+        "note": "tie is differential (family header); P-observable = the whole line (returned token list, error class, printed header). Headers are modelled as code points of valid UTF-8 (harness sends only such); macaroon.Decode is an oracle passed per token; consts_match ties labels/schemes/flyio location to Generated.Consts.",
+    },
 }
 
 # reasons for properties not claimed yet (MANIFEST.not_applicable)
